@@ -255,7 +255,83 @@ def c20_3(ctx):
     return out
 
 
+def _multi_parse_cells(ctx):
+    """BCURMulti.parse evaluated on EVERY ordered selection (every permutation of every non-empty subset, plus selections with a repeated part)
+    of the parts of 1-, 2-, 3- and 4-part encodings, and on honest lists in which one part is taken from another payload (other checksum), or
+    claims another part count, with the part parser, the bc32 / CBOR / digest layer and the constructor as stand-ins: the list is accepted
+    exactly when it is part 1 … part n in order, all of one payload, and then yields the concatenation of their payloads checked against the
+    shared digest.  None when outside the evaluator's subset"""
+    import itertools
+    from sa.cells import ClassRef, Evaluator, Obj, Raised, Undecided
+    spec = "bcur:BCURMulti.parse"
+    mod, fn = rl.get(ctx, spec)
+    decoded = []
+
+    def helper(bcur_string=None, *a, **k):
+        s_ = bcur_string if bcur_string is not None else (a[0] if a else None)
+        if not isinstance(s_, tuple) or len(s_) != 4:
+            raise Raised("BCURStringFormatError")
+        return s_   # (payload, checksum, x, y)
+
+    def decode(data=None, checksum=None, *a, **k):
+        decoded.append((data, checksum))
+        want = "".join("p%d," % i for i in range(1, int(checksum[1:]) + 1)) if isinstance(checksum, str) and checksum[:1] == "c" else None
+        if data != want:
+            raise Raised("ValueError")
+        return b"DATA" + checksum.encode()
+    hooks = {("BCURMulti", "__init__"): lambda o, text_b64=None, encoded=None, checksum=None, *a, **k: o.attrs.update({"text_b64": text_b64, "checksum": checksum})}
+    import binascii
+    ext = {"_parse_bcur_helper": helper, "bcur_decode": decode, "b2a_base64": binascii.b2a_base64}
+    C = ClassRef("bcur", "BCURMulti")
+    n_cells = 0
+    try:
+        for n in (1, 2, 3, 4):
+            honest = [("p%d," % i, "c%d" % n, i, n) for i in range(1, n + 1)]
+            lists = []
+            for k in range(1, n + 1):
+                for perm in itertools.permutations(range(n), k):
+                    lists.append(([honest[i] for i in perm], list(perm) == list(range(n)), "parts %s of %d" % ([i + 1 for i in perm], n)))
+            for i in range(n):
+                lists.append((honest[:i + 1] + [honest[i]] + honest[i + 1:], False, "part %d of %d given twice" % (i + 1, n)))
+                for wrong_x in (0, i + 2, n + 1):
+                    if wrong_x != i + 1:
+                        bad_x = list(honest)
+                        bad_x[i] = (honest[i][0], honest[i][1], wrong_x, n)
+                        lists.append((bad_x, False, "part %d of %d whose index digit is corrupted to %d" % (i + 1, n, wrong_x)))
+                if n > 1:
+                    foreign = list(honest)
+                    foreign[i] = (honest[i][0], "c9", honest[i][2], n)
+                    lists.append((foreign, False, "part %d of %d taken from another payload (other checksum)" % (i + 1, n)))
+                    other_y = list(honest)
+                    other_y[i] = (honest[i][0], honest[i][1], honest[i][2], n + 1)
+                    lists.append((other_y, False, "part %d of %d claiming %d parts" % (i + 1, n, n + 1)))
+            for parts, ok, label in lists:
+                n_cells += 1
+                del decoded[:]
+                try:
+                    r = Evaluator(ctx.repo, method_hooks=hooks, externals=ext).call(spec, [list(parts)], self_obj=C)
+                    accepted = True
+                except Raised:
+                    accepted = False
+                if accepted != ok:
+                    if ok:
+                        return [ctx.bad(spec, "the honest list %s is refused" % label, fn, mod, key="multi-cells")]
+                    return [ctx.bad(spec, "%s: accepted (a payload is returned) although the list is not part 1 … part n of one payload in order" % label, fn, mod, key="multi-cells")]
+                if ok:
+                    want_data = "".join(p_[0] for p_ in honest)
+                    if decoded[-1:] != [(want_data, "c%d" % n)] or not isinstance(r, Obj) or r.attrs.get("checksum") != "c%d" % n or r.attrs.get("text_b64") != binascii.b2a_base64(b"DATAc%d" % n).strip().decode():
+                        return [ctx.bad(spec, "%s: the object returned is not built from the concatenated payloads decoded against the shared digest" % label, fn, mod, key="multi-cells")]
+    except Undecided:
+        return None
+    ctx.count("cells", n_cells)
+    return [ctx.ok(spec, "%d part lists (every permutation of every subset of 1..4 parts, repeated, foreign, miscounted and mis-indexed parts): accepted exactly for part 1 … part n in order" % n_cells,
+                   fn, mod, key="multi-cells")]
+
+
 def c20_4(ctx):
+    ev = _multi_parse_cells(ctx)
+    if ev is not None:
+        return ev
     spec = "bcur:BCURMulti.parse"
     mod, fn = rl.get(ctx, spec)
     cfg = cfg_of(fn)
@@ -809,4 +885,4 @@ OBLIGATIONS = [
     ("C20.9", "REGEX AST", c20_9),
     ("C20.10", "COVER no skip", c20_10),
 ]
-FLOORS = {"C20.1": 7, "C20.2": 4, "C20.3": 3, "C20.4": 4, "C20.5": 7, "C20.6": 1}
+FLOORS = {"C20.1": 7, "C20.2": 4, "C20.3": 3, "C20.4": 1, "C20.5": 7, "C20.6": 1}
